@@ -1,3 +1,42 @@
-import ViaProofs.Statements
+import ViaProofs.ConnLemmas
+/-
+  C03 — each request gets exactly one complete response, in order, in every schedule.
+
+  The full statement is FALSE of the code (known finding C03-KF1: a response issued while a write is in flight is
+  refused by `send_data` and the slots of the write in flight are overwritten).  What is proved is the step
+  property that gives the partial result for histories in which no send overlaps a write in flight
+  (`C03_partial_*`), and the refusal itself as a theorem about the model (`C03_overlap_is_refused`):
+  * `C03_partial_write_started`  a send on an idle connected connection starts exactly ONE write, of exactly the
+                                 buffers of that response, appended after the writes already queued (order);
+  * `C03_partial_bytes_stable`   the bytes the adaptor reads at completion are the bytes of the response as long as
+                                 the slots are not reassigned in between (no stale buffer);
+  * `C03_overlap_is_refused`     with a write in flight `send_data` starts nothing and marks the history.
+-/
 namespace Via
+open Sim
+
+theorem C03_partial_write_started (w : World) (i : Nat) (bufs : List Buf) (hi : i < w.conns.length)
+    (hc : (w.get i).connected = true) (ht : (w.get i).transmitting = false) :
+    (sendData w i bufs).2 = true ∧
+    ((sendData w i bufs).1.get i).transmitting = true ∧
+    ((sendData w i bufs).1.get i).writes = (w.get i).writes ++ [bufs] ∧
+    ((sendData w i bufs).1.get i).shutdownSent = (w.get i).shutdownSent :=
+  sendData_starts w i bufs hi hc ht
+
+/-- resolution of the buffers depends only on the two slots -/
+theorem C03_partial_bytes_stable (c c' : Conn) (bufs : List Buf)
+    (hh : c'.txHeader = c.txHeader) (hb : c'.txBody = c.txBody) : bufsBytes c' bufs = bufsBytes c bufs := by
+  unfold bufsBytes
+  congr 1
+  apply List.map_congr_left
+  intro b _
+  cases b <;> simp [bufBytes, hh, hb]
+
+theorem C03_overlap_is_refused (w : World) (i : Nat) (bufs : List Buf) (ht : (w.get i).transmitting = true) :
+    (sendData w i bufs).2 = false ∧ (sendData w i bufs).1.sendWhileTransmitting = true ∧
+    ((sendData w i bufs).1.get i).writes = (w.get i).writes := by
+  unfold sendData
+  simp only [ht, ↓reduceIte]
+  refine ⟨trivial, ?_, ?_⟩ <;> rfl
+
 end Via
